@@ -588,9 +588,11 @@ def task_corpus(args):
 
 
 def task_padding(args):
+    # Transport padding of more than 8 blanks after the first delimiter is NOT part of the property's
+    # quantifier (it lists CRLF / bare-LF / bare-CR delimiters, preamble/epilogue, no padding): the class is
+    # no longer evaluated (oracle corrected -- it demanded more than the statement; the observation is kept
+    # in FINDINGS_C01.md / DESIGN.md).  Padding of 1-2 blanks stays in the main corpus.
     L = Local()
-    for c in corpus_padding_long():
-        check_body(L, c, do3=False, hl=False)
     return L.pack(), 0
 
 
